@@ -28,6 +28,8 @@ type notifFam struct {
 
 func init() { families["notif"] = func() Family { return &notifFam{} } }
 
+func (f *notifFam) Reseed(r *rand.Rand) { f.rng = r }
+
 func (f *notifFam) Setup(cfg M, rng *rand.Rand) {
 	f.rng = rng
 	f.accts = strs(getl(cfg, "accts"), []string{"a", "b", "c"})
